@@ -135,7 +135,9 @@ def type_lattice(tier):
     ts += ["Tuple[()]", "tuple", "Tuple", "List", "Dict", "list", "dict", "Sequence", "Mapping", "Set", "FrozenSet",
            "Tuple[int, Unpack[Tuple[H1, ...]]]", "Tuple[Unpack[Tuple[H1, ...]], int]",
            "Tuple[int, Unpack[Tuple[H1, ...]], str]", "Tuple[int, Unpack[Tuple[H1, ...]], str, H2]",
-           "Tuple[H2, int, Unpack[Tuple[H1, ...]], str]", "Tuple[Unpack[Tuple[H1, ...]]]"]
+           "Tuple[H2, int, Unpack[Tuple[H1, ...]], str]", "Tuple[Unpack[Tuple[H1, ...]]]",
+           # PEP 646 star syntax (the same types written without Unpack)
+           "tuple[int, *tuple[H1, ...]]", "tuple[*tuple[H1, ...], int]", "tuple[int, *tuple[H1, ...], str, H2]"]
     # depth 2 compositions (compositionality cross-check)
     outer_seq = ["List", "Set", "Tuple[{}, ...]", "Optional"] if tier == "quick" else SEQ + ["Tuple[{}, ...]", "Optional"]
     inner = ["List[H1]", "Dict[str, H1]", "Optional[H1]", "Tuple[H1, int]", "NT1", "TD1", "datetime.date", "Set[int]", "List[int]", "Dict[str, int]"]
